@@ -7,7 +7,7 @@ from .. import cases, oracles
 from . import _align_common as ac
 
 TITLE = "Gamma-cat and gamma-k follow their definition"
-DECIDING = ["M-CATDIS", "M-GAMMACAT", "M-REFUSE", "M-AGREE-1", "M-CATDIS-AFTER-EDIT"]
+DECIDING = ["M-CATDIS", "M-GAMMACAT", "M-REFUSE", "M-AGREE-1", "M-CATDIS-AFTER-EDIT", "M-CATDIS-CONCURRENT"]
 LEVEL = "exploration"
 RULE = ("(A) Alignment.gamma_k_disorder(d, c) on library best / soft alignments and on hand-built random partitions "
         "with every pattern of empty slots (2-5 annotators), c in {None, each category present, one absent}, combined "
@@ -15,7 +15,7 @@ RULE = ("(A) Alignment.gamma_k_disorder(d, c) on library best / soft alignments 
         "reference; (B) GammaResults.gamma_cat / gamma_k against 1 - observed/mean(chance) recomputed from the stored "
         "alignments, <= 1, == 1 on continua whose annotators agree on every category and leave nothing unaligned; "
         "(C) refusal for non-combined dissimilarities (gamma-cat, gamma-k of a present and of an absent category); (D) "
-        "hand-built alignments measured, then edited through the public UnitaryAlignment.n_tuple setter, then measured again. non-trivial = alignment with >= 1 unitary alignment holding 2 "
+        "hand-built alignments measured, then edited through the public UnitaryAlignment.n_tuple setter, then measured again; (E) one alignment object measured by 8 user threads at once; unlabelled units in a quarter of the cases whose categorical component is the default one. non-trivial = alignment with >= 1 unitary alignment holding 2 "
         "real units; distinct by SHA-1")
 ASSUMPTIONS = [
     "weights and values use the combined dissimilarity's own components through their d() (weighting logic is what C12 "
@@ -239,7 +239,35 @@ def check_refusal_case(ctx, case):
             ctx.observe("refusal_exception", type(e).__name__)
 
 
+def check_concurrent_case(ctx, case):
+    """ONE alignment object measured (gamma-cat / gamma-k disorders) by several user threads at once: every thread must get
+    the value the same call gives alone."""
+    _, pool = ac.setup(ctx)
+    cspec, dspec = case["continuum"], case["dissim"]
+    dissim = pool.get(dspec)
+    labels = cases.spec_labels(cspec)
+    cats = ([None] + labels + [None] + labels)[:8]
+    alone = cases.build_alignment(cspec, case["alignment"], continuum=None)
+    try:
+        ref = [float(alone.gamma_k_disorder(dissim, c)) for c in cats]
+    except Exception as e:
+        ctx.fail_exc(f"concurrent:sequential-reference-raises:{type(e).__name__}", e, monitor="M-CATDIS-CONCURRENT")
+        return
+    shared = cases.build_alignment(cspec, case["alignment"], continuum=None)      # never measured before the threads start
+    results = ac.concurrent_calls([(lambda c=c: [float(shared.gamma_k_disorder(dissim, c)) for _ in range(3)]) for c in cats])
+    for k, (res, exc) in enumerate(results):
+        ctx.count("M-CATDIS-CONCURRENT")
+        if exc is not None:
+            ctx.fail_exc(f"concurrent:gamma_k_disorder-raises:{type(exc).__name__}", exc, monitor="M-CATDIS-CONCURRENT")
+            continue
+        if any(not (oracles.close(v, ref[k]) or (v != v and ref[k] != ref[k])) for v in res):
+            ctx.fail("concurrent:categorical-disorder-differs-from-the-same-call-alone",
+                     {"category": cats[k], "concurrent": res, "alone": ref[k]}, monitor="M-CATDIS-CONCURRENT")
+
+
 def check_case(ctx, case):
+    if case.get("type") == "concurrent":
+        return check_concurrent_case(ctx, case)
     t = case["type"]
     if t == "disorder":
         check_disorder_case(ctx, case)
@@ -271,6 +299,15 @@ def run(ctx):
     dspecs = combined_specs(rng, ctx.scale(10, 26))
     dspecs.append({"kind": "combined", "alpha": 1.0, "beta": 1.0, "delta": 1.0, "pos": None, "cat": None})
     dspecs.append({"kind": "combined", "alpha": 3.0, "beta": 1.0, "delta": 0.5, "pos": None, "cat": None})
+    # one alignment object measured by 8 user threads at once
+    for i in range(ctx.scale(6, 80)):
+        dspec = rng.choice(dspecs)
+        n = rng.randint(2, 4)
+        cspec = cases.gen_continuum(rng, n_annot=n, sizes=[rng.randint(2, 4) for _ in range(n)], labels=cases.dissim_labels(dspec) or cases.LABELS_SMALL)
+        case = {"type": "concurrent", "continuum": cspec, "dissim": dspec, "alignment": cases.random_partition_alignment(rng, cspec, p_join=0.7)}
+        ctx.begin_case(case)
+        ctx.observe("source", "concurrent-threads")
+        check_case(ctx, case)
     for i in range(ctx.scale(380, 10000)):
         if ctx.out_of_time():
             break
@@ -278,8 +315,11 @@ def run(ctx):
         labels = cases.dissim_labels(dspec)
         n = rng.randint(2, 5)
         mx = {2: 7, 3: 5, 4: 4, 5: 3}[n]
+        # unlabelled units (legal with the default, absolute, categorical component) in a quarter of the label-free cases
+        p_none = rng.choice([0.3, 0.6]) if (labels is None and rng.random() < 0.25) else 0.0
         cspec = cases.gen_continuum(rng, n_annot=n, max_units=rng.randint(1, mx), labels=labels or cases.LABELS_SMALL,
-                                    min_total=2)
+                                    min_total=2, p_none=p_none)
+        ctx.observe("unlabelled_units", p_none > 0)
         src = rng.choice(["best", "soft", "hand", "hand", "hand"])
         case = {"type": "disorder", "continuum": cspec, "dissim": dspec, "source": src}
         if src == "hand":
